@@ -4,6 +4,7 @@ CONSTANTS
   MaxParts = 2
   Refs = {7}
   SameRef = TRUE
+  Echo = TRUE
   MaxResend = 0
 INVARIANTS Unmixed AtMostOnce Paired
 CHECK_DEADLOCK FALSE
